@@ -393,6 +393,7 @@ class Spec:
         # evidence: which regions of the value space the conversions of this case went through
         import collections
         self.stats = collections.Counter()
+        self.tag_decided = False
 
     @staticmethod
     def falsy(value):
@@ -449,7 +450,12 @@ class Spec:
         if k == "any":
             return True
         if k == "origin":
-            return not hide and self.origin_of(last["ty"]) == p["o"]
+            bare = self.origin_of(last["ty"]) == p["o"]
+            if hide and bare:
+                # the tag changed the truth value of a predicate: the Lean model has no tags, so the request is
+                # outside its universe (oracle only, counted)
+                self.tag_decided = True
+            return not hide and bare
         if k == "garg":       # P.generic_arg(pos, q) = GenericParamLSC(pos) & q: the last location is the pos-th
             #                   type argument of its parent (dict key 0 / value 1, element 0, Optional's type 0)
             return last["kind"] == "gparam" and last["pos"] == p["pos"] and self.pred(p["q"], stack, hide)
